@@ -194,8 +194,15 @@ PROPS["C17"] = {
 }
 
 PROPS["C18"] = {
-    "skeleton_fns": ["supervisor_PIDZero_ReloadAll", "finitestate_Machine_getStateChanInternal", "supervisor_PIDZero_SubscribeStateChanges",
-                     "supervisor_PIDZero_unsubscribeState"],
+    # every function that starts a goroutine, ends one, or owns what a started goroutine waits for
+    "skeleton_fns": ["supervisor_PIDZero_ReloadAll", "supervisor_PIDZero_reloadOnSignal", "finitestate_Machine_getStateChanInternal",
+                     "supervisor_PIDZero_SubscribeStateChanges", "supervisor_PIDZero_unsubscribeState", "supervisor_PIDZero_Run",
+                     "supervisor_PIDZero_goTracked", "supervisor_PIDZero_Shutdown", "supervisor_PIDZero_reap",
+                     "supervisor_PIDZero_startReloadManager", "supervisor_PIDZero_startStateMonitor", "supervisor_PIDZero_startShutdownManager",
+                     "composite_Runner_boot", "composite_Runner_startRunnable", "composite_Runner_stopAllRunnables",
+                     "httpserver_Runner_boot", "httpserver_Runner_stopServer", "httpserver_Runner_shutdown", "httpserver_Runner_Reload",
+                     "httpserver_Runner_Run", "httpcluster_Runner_createAndStartServer", "httpcluster_Runner_stopServers",
+                     "httpcluster_Runner_startServers", "httpcluster_Runner_shutdown"],
     "lean_modules": ["GoSup.Props.C18", "GoSup.Tie.C18"],
     "theorems": ["GoSup.Props.C18.c18_no_leak", "GoSup.Props.C18.c18_unsafe_point_leaks", "GoSup.Props.C18.tableSafe_sound",
                  "GoSup.Props.C18.c18_table_no_leak"],
@@ -272,12 +279,16 @@ PROPS["C07"] = {
     "theorems": ["GoSup.Props.C07.c07_safety", "GoSup.Props.C07.c07_signalled", "GoSup.Props.C07.c07_started_passable",
                  "GoSup.Props.C07.c07_immediate"],
     "ties": ["GoSup.Tie.Lifecycle.runners_use_lifecycle"],
-    "legs": [{"name": "lifecycle", "cmd": "lifecycle"}],
+    "legs": [{"name": "lifecycle", "cmd": "lifecycle"}, {"name": "runstop", "cmd": "runstop"}],
     "rule": "schedules: a yield-point controller (build tag verif) releases one goroutine at a time between the critical sections "
             "and blocking receives of lifecycle.StartStop.Stop with k=1..4 concurrent Stop callers and m=1..4 consecutive Run cycles; "
             "committed corpus of schedules first, then seeded random schedules; every trace is replayed on the Lean model (each "
             "observed step must be enabled; at the quiescent end the blocked threads must be exactly the model's disabled ones) and "
-            "Spec.C07.holds is evaluated on it. Non-trivial = a Stop overlapped a Run cycle; distinct by the event trace.",
+            "Spec.C07.holds is evaluated on it. Non-trivial = a Stop overlapped a Run cycle; distinct by the event trace. "
+            "Lifted leg (runstop): a real composite (children built on lifecycle.StartStop), HTTP server (loopback) and HTTP cluster, "
+            "12 fixed and 30 (thorough: 600) random orderings of Run(), 1-3 Stop() callers before / during / after it, Reload() or a "
+            "configuration push before Run(), context cancelled before or after Run(); oracle Spec.C07.liftHolds (a Stop() returns "
+            "only after the Run() returned; everything returns once a Run() was invoked).",
     "assumptions": ["Run cycles are consecutive (a second Run starts only after the previous one returned)",
                     "a goroutine that does not reach its next yield point within 0.6 ms of being released into a blocking receive "
                     "is treated as blocked; late arrivals are still recorded when they happen"],
